@@ -8,7 +8,7 @@ from . import common
 
 ID = 'C03'
 LEVEL = 'exploration'
-BUDGET = {'quick': (5000, 70.0), 'thorough': (200000, 1500.0)}
+BUDGET = {'quick': (30000, 80.0), 'thorough': (400000, 1500.0)}
 RULE = ('one real stack against the reference peer, either role, RTS/CTS and BAM, both data link layers; enumerated part: every CTS-window '
         'sequence of the peer for 2..6 packets (stack as originator) and every RTS limit 1..npk+1 x max_cmdt {1,2,3,255} (stack as responder); '
         'sampled part: sizes as C01/C02, peer choices (window per CTS, 0-3 holds < 0.5 s, reply latency 0-150 ms, DT spacing < 200 ms, BAM spacing '
